@@ -76,6 +76,26 @@ CHECKS = {
   note="A blocked Begin is detected via the lock-state hook rather than by timeout; exact grow delta only asserted when the data end was within the old limit.",
   technique="model-based property testing (rapid) over (history, old max, new max, prealloc)",
   design="4/C14"),
+ "C02": dict(
+  text="Exploration with a harness-owned schedule under the race detector: one writer transaction per round (full op grammar, optional Flush, commit/rollback/close) with lazy readers begun before it and between its operations; the writer's Commit runs asynchronously and is parked by the simulated disk's gate at a generated disk call (data write k, data sync, header write, header sync) while old readers touch pages for the first time and new readers call Begin; every observation must equal the model state committed when the reader began; no Begin returns during a commit; Commit does not succeed while older readers are open.",
+  note="Interleavings at the granularity of API calls, disk calls and lock states; finer preemption only via the race detector (simulated mmap is ordinary memory, so a page write racing with a reader is reported).",
+  technique="property testing with generated schedules (rapid) + Go race detector, model oracle per reader snapshot",
+  design="4/C02"),
+ "C09": dict(
+  text="Three generated case families under the race detector: (a) sequential histories covering every way a transaction or open-time maintenance step can end, with the lock state (hook) required idle whenever no transaction is open and Begin/BeginReadonly/Close returning at the end; (b) concurrent stress with readers, model writers, contenders and a closer, requiring silence of the race detector, termination, never two active writers and final model equality; (c) generated schedules of lock-operation sequences on a standalone instance of the real lock type, blocking operations run in goroutines (must not return early, must return when enabled).",
+  note="(b) does not own the schedule (statistical for deadlocks, deterministic for races once both sites execute); watchdog 120 s.",
+  technique="property testing (rapid): sequential invariant + concurrent stress under -race + schedule exploration on the real lock object",
+  design="4/C09"),
+ "C13": dict(
+  text="Two-goroutine producer/consumer scenarios on one queue under the race detector with generated event sizes, chunkings, flush points, reader section lengths, partial reads, ACK batches and yield patterns, on bounded (retry when full) and unbounded files; the consumer must receive exactly the produced sequence, ACK never exceeds consumption, both finish, no data race, empty queue at the end.",
+  note="Schedule perturbed, not owned: atomicity defects found probabilistically; failures print the scenario (no shrinking of schedules).",
+  technique="concurrent property testing (rapid-generated scripts) under the Go race detector with FIFO oracle",
+  design="4/C13"),
+ "C18": dict(
+  text="Generated sequences of open / second open / waiting open / transaction / close / failing opens (invalid options, damaged or zeroed headers, short file) on one path of the real file system: second open must fail with LockFailed and leave the first usable, a waiting open returns only after Close, every failed open and every Close leaves the path lockable at once with the last committed contents.",
+  note="Runs on the OS file system with flock; injected I/O failure during initialisation is covered on the simulated disk (lock flag checked after failed opens in C08/C16).",
+  technique="model-based property testing (rapid) on the real file system",
+  design="4/C18"),
 }
 
 NOT_APPLICABLE = {}
